@@ -60,12 +60,15 @@ theorem run_lit (ρ : List FunDef) : ∀ (f : Nat) (j : Job) (s : St), Lit n o0 
       · split
         · ihl ih (.node b) s h
           have key : ∀ u : St, Lit n o0 u →
-              Lit n o0 (match u.objAt il with
-               | .int j => run ρ f (.cforL il hi b) (u.setObj il (.int (j + 1)))
+              Lit n o0 (match u.val il with
+               | .int j => if (u.cell il).const then ((.thrown (.evalErr .assignConst), u) : R) else run ρ f (.cforL il hi b) (u.setVal il (.int (j + 1)))
                | _ => (.thrown (.evalErr .other), u)).2 := by
             intro u hu
             split
-            · exact ih _ _ (hu.setObj il _ hj) hj
+            · split
+              · exact hu
+              · rename_i hcst
+                exact ih _ _ (hu.setVal il _ (by simpa using hcst)) hj
             · exact hu
           cases oo <;> (try simp only []) <;> first | exact key _ hh | exact hh
         · exact h.allocVal _ _ _
@@ -323,8 +326,8 @@ theorem run_lit (ρ : List FunDef) : ∀ (f : Nat) (j : Job) (s : St), Lit n o0 
         · exact ht.alloc _ _ _
         · rename_i s2 h2
           have e2 := (ht.alloc (.int lo) false false).addObject h2
-          have hh := ih (.cforL t.objs.length hi b) s2 e2 ht.len
-          generalize run ρ f (.cforL t.objs.length hi b) s2 = rr at hh ⊢
+          have hh := ih (.cforL (t.allocV (.int lo)).1 hi b) s2 e2 trivial
+          generalize run ρ f (.cforL (t.allocV (.int lo)).1 hi b) s2 = rr at hh ⊢
           obtain ⟨oo, tt⟩ := rr
           simp only [] at hh
           cases oo <;> (try simp only []) <;> first | exact hh | exact hh.allocVal _ _ _
